@@ -435,8 +435,10 @@ class RPCSession(SessionBase):
         avg = sum(req_times) / len(req_times)
         req_times.clear()
         current = self._outgoing_concurrency.max_concurrent
-        cap = min(current + max(3, current * 0.1), 250)
-        floor = max(1, min(current * 0.8, current - 1))
+        # Integer step bounds: up by at most max(3, 10%), down by at most max(1, 20%).  With
+        # fractional bounds the rounding below could overshoot them by one.
+        cap = min(current + max(3, current // 10), 250)
+        floor = max(1, current - max(1, current // 5))
         if avg != 0:
             target = max(floor, min(cap, current * self.target_response_time / avg))
         else:
